@@ -98,14 +98,47 @@ def _callee_param(fn: ast.FunctionDef, pos) -> str | None:
 
 
 # ------------------------------------------------------------------ entry points
+def _add_parser_mode(n):
+    """`<x>.add_parser("file"|"dir", …)` -> the mode, else None"""
+    if isinstance(n, ast.Call) and isinstance(n.func, ast.Attribute) and n.func.attr == "add_parser" and n.args \
+            and isinstance(n.args[0], ast.Constant) and n.args[0].value in MODES:
+        return n.args[0].value
+    return None
+
+
 def entry_points(ix: Index) -> dict:
     """{mode: ((Mod, declaring fn), (Mod, run fn))}"""
     main = ix.mods["_main"]
     out = {}
     for fn in main.funcs.values():
+        # (1) the parser of a sub-command bound to a variable: `p = <x>.add_parser("<mode>", …)`; then the declaring function
+        # is the one called with `p`, the run function the value of `p.set_defaults(func=…)` - whatever else the function
+        # does (both sub-commands may be set up in one function)
+        for st in ast.walk(fn):
+            if isinstance(st, ast.Assign) and len(st.targets) == 1 and isinstance(st.targets[0], ast.Name) \
+                    and _add_parser_mode(st.value) is not None:
+                mode, var = _add_parser_mode(st.value), st.targets[0].id
+                if sum(1 for x in ast.walk(fn) if isinstance(x, ast.Name) and x.id == var
+                       and isinstance(x.ctx, ast.Store)) != 1:
+                    continue
+                decl = run = None
+                for c in ast.walk(fn):
+                    if not isinstance(c, ast.Call):
+                        continue
+                    if isinstance(c.func, ast.Attribute) and c.func.attr == "set_defaults" \
+                            and isinstance(c.func.value, ast.Name) and c.func.value.id == var:
+                        for k in c.keywords:
+                            if k.arg == "func" and isinstance(k.value, ast.Name):
+                                run = run or ix.resolve(main, k.value.id)
+                    elif isinstance(c.func, ast.Name) and ix.resolve(main, c.func.id) and _passed_positions(c, {var}):
+                        decl = decl or ix.resolve(main, c.func.id)
+                if decl and run and mode not in out:
+                    out[mode] = (decl, run)
+    for fn in main.funcs.values():
         for n in ast.walk(fn):
-            if isinstance(n, ast.Call) and isinstance(n.func, ast.Attribute) and n.func.attr == "add_parser" and n.args \
-                    and isinstance(n.args[0], ast.Constant) and n.args[0].value in MODES:
+            if _add_parser_mode(n) is not None and _add_parser_mode(n) not in out:
+                if sum(1 for x in ast.walk(fn) if _add_parser_mode(x) is not None) != 1:
+                    continue        # several sub-commands in one function and no parser variable: cannot be told apart
                 mode = n.args[0].value
                 decl = run = None
                 for c in ast.walk(fn):
@@ -205,6 +238,55 @@ def _strip_bool(e):
     return e
 
 
+def _guarded_assignments(fn: ast.FunctionDef) -> dict:
+    """local name -> [every expression that can influence its value]: for a name that is only bound by plain / annotated
+    assignments to the bare name, ALL assigned expressions plus the tests of the `if`/`while` statements these assignments are
+    nested in (`if c: x = A / else: x = B` carries the same information as `x = A if c else B`).  Names bound in any other way
+    (loop targets, augmented assignment, tuple targets, `with`, `except`, walrus) are left out."""
+    values, bad = {}, set()
+
+    def visit(stmts, guards):
+        for s in stmts:
+            if isinstance(s, (ast.FunctionDef, ast.ClassDef, ast.Lambda)):
+                continue
+            if isinstance(s, (ast.Assign, ast.AnnAssign)):
+                tgts = s.targets if isinstance(s, ast.Assign) else [s.target]
+                for t in tgts:
+                    if isinstance(t, ast.Name) and s.value is not None:
+                        values.setdefault(t.id, []).extend([s.value] + list(guards))
+                    else:
+                        bad.update(x.id for x in ast.walk(t) if isinstance(x, ast.Name) and isinstance(x.ctx, ast.Store))
+            elif isinstance(s, ast.AugAssign):
+                bad.update(x.id for x in ast.walk(s.target) if isinstance(x, ast.Name))
+            elif isinstance(s, (ast.If, ast.While)):
+                visit(s.body, guards + [s.test])
+                visit(s.orelse, guards + [s.test])
+            elif isinstance(s, (ast.For, ast.AsyncFor)):
+                bad.update(x.id for x in ast.walk(s.target) if isinstance(x, ast.Name))
+                visit(s.body, guards)
+                visit(s.orelse, guards)
+            elif isinstance(s, (ast.With, ast.AsyncWith)):
+                for item in s.items:
+                    if item.optional_vars is not None:
+                        bad.update(x.id for x in ast.walk(item.optional_vars) if isinstance(x, ast.Name))
+                visit(s.body, guards)
+            elif isinstance(s, ast.Try):
+                for h in s.handlers:
+                    if h.name:
+                        bad.add(h.name)
+                    visit(h.body, guards)
+                visit(s.body, guards)
+                visit(s.orelse, guards)
+                visit(s.finalbody, guards)
+            for x in ast.walk(s) if not isinstance(s, (ast.If, ast.While, ast.For, ast.With, ast.Try)) else []:
+                if isinstance(x, ast.NamedExpr) and isinstance(x.target, ast.Name):
+                    bad.add(x.target.id)
+                if isinstance(x, ast.comprehension):
+                    bad.update(y.id for y in ast.walk(x.target) if isinstance(y, ast.Name))
+    visit(fn.body, [])
+    return {k: v for k, v in values.items() if k not in bad}
+
+
 def _assignments(fn: ast.FunctionDef) -> dict:
     """local name -> its single assigned expression (names assigned more than once / by loops are left out)"""
     count, value = {}, {}
@@ -236,8 +318,17 @@ def reads_and_wiring(ix: Index, mod: Mod, fn: ast.FunctionDef, option_fields: li
             k = _key_of_read(n, args_names)
             if k is not None and k not in ks:
                 ks.append(k)
-            if isinstance(n, ast.Name) and isinstance(n.ctx, ast.Load) and n.id in assigned and depth < 8:  # noqa: PLR2004
-                for k2 in keys_in(assigned[n.id], args_names, assigned, depth + 1):
+            if isinstance(n, ast.Name) and isinstance(n.ctx, ast.Load) and depth < 8:  # noqa: PLR2004
+                if n.id in assigned:
+                    more = keys_in(assigned[n.id], args_names, assigned, depth + 1)
+                elif n.id in assigned.multi:
+                    # bound by several assignments / under conditions: everything that can influence the value
+                    more = [k2 for v in assigned.multi[n.id] for k2 in keys_in(v, args_names, assigned, depth + 1)]
+                elif n.id in assigned.params:
+                    more = assigned.params[n.id][0]          # a parameter: the keys read in the argument at the call site
+                else:
+                    more = []
+                for k2 in more:
                     if k2 not in ks:
                         ks.append(k2)
         return ks
@@ -246,6 +337,8 @@ def reads_and_wiring(ix: Index, mod: Mod, fn: ast.FunctionDef, option_fields: li
         e = _strip_bool(e)
         if isinstance(e, ast.Name) and e.id in assigned and depth < 8:      # noqa: PLR2004
             return kind_of(assigned[e.id], args_names, assigned, depth + 1)
+        if isinstance(e, ast.Name) and e.id in assigned.params and e.id not in assigned.multi:
+            return assigned.params[e.id][1]
         if _key_of_read(e, args_names) is not None:
             return "direct"
         if isinstance(e, ast.UnaryOp) and isinstance(e.op, ast.Not) \
@@ -253,7 +346,11 @@ def reads_and_wiring(ix: Index, mod: Mod, fn: ast.FunctionDef, option_fields: li
             return "negated"
         return "expr"
 
-    def visit(mod, fn, args_names):
+    class Assigned(dict):
+        """single-assignment locals (the dict itself) + `multi`: locals bound several times / under conditions
+        (name -> all influencing expressions) + `params`: parameter -> (keys, kind) of the argument at the call site"""
+
+    def visit(mod, fn, args_names, param_values=None):
         key = (mod.name, fn.name, tuple(sorted(args_names)))
         if key in seen:
             return
@@ -268,7 +365,11 @@ def reads_and_wiring(ix: Index, mod: Mod, fn: ast.FunctionDef, option_fields: li
                         if isinstance(t, ast.Name) and t.id not in args_names:
                             args_names.add(t.id)
                             changed = True
-        assigned = {k: v for k, v in _assignments(fn).items() if k not in args_names}
+        assigned = Assigned({k: v for k, v in _assignments(fn).items() if k not in args_names})
+        assigned.multi = {k: v for k, v in _guarded_assignments(fn).items() if k not in args_names and k not in assigned}
+        rebound = {x.id for x in ast.walk(fn) if isinstance(x, ast.Name) and isinstance(x.ctx, ast.Store)}
+        assigned.params = {k: v for k, v in (param_values or {}).items()
+                           if k not in args_names and k not in rebound and k in _params(fn)}
         nodes = sorted((n for n in ast.walk(fn) if hasattr(n, "lineno")), key=lambda n: (n.lineno, n.col_offset))
         for n in nodes:
             k = _key_of_read(n, args_names)
@@ -291,7 +392,14 @@ def reads_and_wiring(ix: Index, mod: Mod, fn: ast.FunctionDef, option_fields: li
                     if passed and target and target[0].name in MODE_FILES:
                         names = {_callee_param(target[1], pos) for pos, _ in passed} - {None}
                         if names:
-                            visit(target[0], target[1], names)
+                            # the other arguments of the call: what the callee's parameters stand for
+                            pv = {}
+                            if not any(isinstance(a, ast.Starred) for a in n.args) and all(k.arg for k in n.keywords):
+                                for pos, a in list(enumerate(n.args)) + [(k.arg, k.value) for k in n.keywords]:
+                                    pname = _callee_param(target[1], pos)
+                                    if pname is not None and pname not in names:
+                                        pv[pname] = (keys_in(a, args_names, assigned), kind_of(a, args_names, assigned))
+                            visit(target[0], target[1], names, pv)
 
     ps = _params(fn)
     if not ps:
@@ -312,13 +420,22 @@ def option_fields(ix: Index) -> list:
 def comparator_wiring(ix: Index) -> list:
     """[(keyword of MeshFieldsComparator(...), options field it is given)]"""
     out = []
-    for n in ast.walk(ix.mods["_file_comparison"].tree):
-        if isinstance(n, ast.Call) and isinstance(n.func, ast.Name) and n.func.id == COMPARATOR:
-            for k in n.keywords:
-                v = _strip_bool(k.value)
-                if k.arg and isinstance(v, ast.Attribute) and isinstance(v.value, ast.Attribute) \
-                        and isinstance(v.value.value, ast.Name) and v.value.value.id == "self":
-                    out.append((k.arg, v.attr))
+    tree = ix.mods["_file_comparison"].tree
+    fields = set(option_fields(ix))
+    for fn in [f for f in ast.walk(tree) if isinstance(f, ast.FunctionDef)]:
+        # `opts = self._opts`: a local bound exactly once to `self.<attr>` stands for that attribute
+        aliases = {name for name, v in _assignments(fn).items()
+                   if isinstance(v, ast.Attribute) and isinstance(v.value, ast.Name) and v.value.id == "self"}
+        for n in ast.walk(fn):
+            if isinstance(n, ast.Call) and isinstance(n.func, ast.Name) and n.func.id == COMPARATOR:
+                for k in n.keywords:
+                    v = _strip_bool(k.value)
+                    if k.arg and isinstance(v, ast.Attribute) and isinstance(v.value, ast.Attribute) \
+                            and isinstance(v.value.value, ast.Name) and v.value.value.id == "self":
+                        out.append((k.arg, v.attr))
+                    elif k.arg and isinstance(v, ast.Attribute) and isinstance(v.value, ast.Name) \
+                            and v.value.id in aliases and v.attr in fields:
+                        out.append((k.arg, v.attr))
     if not out:
         raise OptionTableError(f"no {COMPARATOR}(…) call with option keywords found")
     return sorted(set(out))
